@@ -8,11 +8,16 @@ namespace hm {
 static World* g_world = nullptr;
 
 World* cur() { return g_world; }
+void World::fire_armed_ok() { if (!armed_ok) return; int g = armed_ok - 1; armed_ok = 0; trompeloeil::set_reporter(make_reporter_fwd(g), make_ok_reporter_fwd(g)); }
 
 void RecTracer::trace(char const* file, unsigned long line, std::string const& call) {
   w->traces.push_back({idx, file ? file : "", line, call});
 }
 
+static trompeloeil::reporter_func make_reporter(int gen);
+static trompeloeil::ok_reporter_func make_ok_reporter(int gen);
+trompeloeil::reporter_func make_reporter_fwd(int gen) { return make_reporter(gen); }
+trompeloeil::ok_reporter_func make_ok_reporter_fwd(int gen) { return make_ok_reporter(gen); }
 static trompeloeil::reporter_func make_reporter(int gen) {
   return [gen](trompeloeil::severity s, char const* file, unsigned long line, std::string const& msg) {
     bool fatal = s == trompeloeil::severity::fatal;
@@ -24,6 +29,7 @@ static trompeloeil::reporter_func make_reporter(int gen) {
 static trompeloeil::ok_reporter_func make_ok_reporter(int gen) {
   return [gen](char const* msg) {
     if (g_world) g_world->oks.push_back(std::to_string(gen) + ":" + (msg ? msg : "(null)"));
+    if (g_world && std::string(msg ? msg : "") != "probe") g_world->fire_armed_ok();  // user code in the OK reporter (OP_ARM_OK)
   };
 }
 
@@ -54,6 +60,7 @@ void World::hs(int slot, int idx, int a) {
   clog.push_back("S" + std::to_string(slot) + "." + std::to_string(idx));
   int mode = eop[slot].semode[idx];
   if (mode == 1) { throw_depth = depth; throw SEThrow{slot, idx}; }
+  if (mode == 4) { if (ntracer < NTRC) { rec[ntracer].reset(new RecTracer(this, ntracer)); ++ntracer; } return; }
   if (mode == 2 || mode == 3) {
     if (mode == 3 && a >= 2) return;
     ++depth;
@@ -76,6 +83,7 @@ std::string World::call_fn(int obj, int fn, int a1, int a2) {
         for (int s = 0; s < NSLOT; ++s) if (&r == &cell[s]) return "ref:" + std::to_string(s);
         return "ref:?";
       }
+      case SV1: return "s:" + x.sv(a1);
       case CR1: {
         const int& r = x.cr(a1);
         int v = r;  // reads through the returned reference: it must designate a live object (the sanitizer build checks)
@@ -167,11 +175,13 @@ Outcome World::apply(const Op& op) {
       case OP_CALL: {
         callobj = op.obj;
         try {
-          o.retv = call_fn(op.obj, op.fn, op.a1, op.a2);
+          if (op.k1 == 1) { try { throw 42; } catch (int) { o.retv = call_fn(op.obj, op.fn, op.a1, op.a2); } }  // the call is made while an exception is being handled
+          else o.retv = call_fn(op.obj, op.fn, op.a1, op.a2);
           o.kind = OK_ACCEPT;
           if (o.retv.compare(0, 2, "r:") == 0) o.handler = atoi(o.retv.c_str() + 2) - 100;
           else if (o.retv.compare(0, 4, "ref:") == 0) o.handler = atoi(o.retv.c_str() + 4);
           else if (o.retv.compare(0, 5, "cref:") == 0) o.handler = atoi(o.retv.c_str() + 5) - 700;
+          else if (o.retv.compare(0, 5, "s:str") == 0) o.handler = atoi(o.retv.c_str() + 5);
           else o.handler = -2;
         } catch (Fatal&) {
           if (raw.empty() || !raw.back().fatal) { o.kind = OK_OTHER; o.harness_error = "Fatal without fatal report"; }
@@ -208,6 +218,7 @@ Outcome World::apply(const Op& op) {
       case OP_POP_TRACER: --ntracer; rec[ntracer].reset(); box[ntracer].reset(); break;
       case OP_SET_REPORTER: install_reporter(op.k1, op.k2 != 0, &o.misc); break;
       case OP_ARM_REPORTER: armed = 1 + op.obj; break;
+      case OP_ARM_OK: armed_ok = 1 + op.k1; break;
     }
   } catch (Fatal&) {
     o.kind = OK_OTHER; o.harness_error = "fatal report outside a mock call";
@@ -320,6 +331,7 @@ Report parse_report(const World& w, const RawReport& r) {
     else if (head == "v with signature void(int) with.") fn = V1;
     else if (head == "r with signature int&(int) with.") fn = R1;
     else if (head == "cr with signature const int&(int) with.") fn = CR1;
+    else if (head == "sv with signature std::string(int) with.") fn = SV1;
     size_t i = 1; while (i < lines.size() && lines[i].compare(0, 8, "  param ") == 0) ++i;
     std::string args; bool ok = parse_actual_params(lines, 1, i, &args);
     d << "fn=" << fn << " args=" << (ok ? args : "?") << ' ';
